@@ -6,6 +6,16 @@ import z3
 
 from sx import core as S, env as E, pl, plh, families as F, cfg, known
 
+
+def _clear_caches(ns_):
+    """empty the configurator-level caches if the current tree has any (lru_cache on the class, pinned tree); a no-op for per-instance caches"""
+    for name in ("ge_polyhedron", "leafs"):
+        f = ns_.cc.StingyConfigurator.__dict__.get(name)
+        f = getattr(f, "fget", f)
+        cc_ = getattr(f, "cache_clear", None)
+        if cc_ is not None:
+            cc_()
+
 PROPERTY = "C16"
 REGIONS = ["plog-model", "configurator", "AtLeast", "AtMost", "All", "Any", "Xor", "XNor", "Imply", "Not", "cAny-default", "cXor-default",
            "explicit-sign", "integer-leaf", "generated-id-top", "str-leaves"]
@@ -117,7 +127,7 @@ def run_inst(spec, run):
     mu = spec.get("mutant")
     model_spec = spec["model"]
     iscfg = spec["kind_"] == "cfg"
-    ns.cc.StingyConfigurator.ge_polyhedron.fget.cache_clear()
+    _clear_caches(ns)
     try:
         rep = pl.build(ns, model_spec, plh.mid_env(model_spec))
     except Exception as e:   # noqa
@@ -216,9 +226,9 @@ def run_inst(spec, run):
                 d2 = sorted((k, [v.id for v in getattr(o[0], "default", [])]) for k, o in nodes2.items() if getattr(o[0], "default", None))
                 if d0 != d2:
                     cv.append("defaults differ: %s vs %s" % (d0, d2))
-                ns.cc.StingyConfigurator.ge_polyhedron.fget.cache_clear()
+                _clear_caches(ns)
                 P0 = m0.ge_polyhedron
-                ns.cc.StingyConfigurator.ge_polyhedron.fget.cache_clear()
+                _clear_caches(ns)
                 P2 = m2.ge_polyhedron
                 import numpy as np
                 if np.asarray(P0).tolist() != np.asarray(P2).tolist() or [v.id for v in P0.variables] != [v.id for v in P2.variables] or \
